@@ -1,0 +1,77 @@
+//go:build verif
+
+// Machine-checked contracts for package momentum (read by /verif/govc; comment-only).
+
+package momentum
+
+//@ func AwesomeOscillator.Compute
+//@ requires a.ShortSma.Period >= 1 && a.ShortSma.Period <= a.LongSma.Period && consumed(highs) == 0 && consumed(lows) == 0 && len(highs) == len(lows)
+//@ ensures[C02] len(result) == max(0, len(highs) - (a.IdlePeriod()))
+//@ ensures[C03] consumed(highs) == len(highs) && consumed(lows) == len(lows) && closed(result)
+//@ ensures[C04] forall kk :: 0 <= kk && kk < len(result) ==> hor(result, kk) <= max(hor(highs, kk + (a.IdlePeriod())), hor(lows, kk + (a.IdlePeriod())))
+
+//@ func ChaikinOscillator.Compute
+//@ requires c.ShortEma.Period >= 1 && c.ShortEma.Period <= c.LongEma.Period && consumed(highs) == 0 && consumed(lows) == 0 && consumed(closings) == 0 && consumed(volumes) == 0 && len(highs) == len(lows) && len(highs) == len(closings) && len(highs) == len(volumes)
+//@ ensures[C02] len(result0) == max(0, len(highs) - (c.IdlePeriod())) && len(result1) == max(0, len(highs) - (c.IdlePeriod()))
+//@ ensures[C03] consumed(highs) == len(highs) && consumed(lows) == len(lows) && consumed(closings) == len(closings) && consumed(volumes) == len(volumes) && closed(result0) && closed(result1)
+//@ ensures[C04] forall kk :: 0 <= kk && kk < len(result0) ==> hor(result0, kk) <= max(hor(highs, kk + (c.IdlePeriod())), max(hor(lows, kk + (c.IdlePeriod())), max(hor(closings, kk + (c.IdlePeriod())), hor(volumes, kk + (c.IdlePeriod())))))
+//@ ensures[C04] forall kk :: 0 <= kk && kk < len(result1) ==> hor(result1, kk) <= max(hor(highs, kk + (c.IdlePeriod())), max(hor(lows, kk + (c.IdlePeriod())), max(hor(closings, kk + (c.IdlePeriod())), hor(volumes, kk + (c.IdlePeriod())))))
+
+// the lagging span is documented as the closing shifted LaggingPeriod back; all five outputs must obey the warm-up law
+//@ func IchimokuCloud.Compute
+//@ requires i.ConversionMax.Period >= 1 && i.ConversionMin.Period == i.ConversionMax.Period && i.BaseMax.Period >= i.ConversionMax.Period && i.BaseMin.Period == i.BaseMax.Period && i.LeadingMax.Period >= i.BaseMax.Period && i.LeadingMin.Period == i.LeadingMax.Period && i.LaggingPeriod >= 0 && consumed(highs) == 0 && consumed(lows) == 0 && consumed(closings) == 0 && len(highs) == len(lows) && len(highs) == len(closings)
+//@ ensures[C02] len(result0) == max(0, len(highs) - (i.IdlePeriod())) && len(result1) == max(0, len(highs) - (i.IdlePeriod())) && len(result2) == max(0, len(highs) - (i.IdlePeriod())) && len(result3) == max(0, len(highs) - (i.IdlePeriod()))
+//@ ensures[C02] "len-lagging-span" len(result4) == max(0, len(highs) - (i.IdlePeriod()))
+//@ ensures[C03] consumed(highs) == len(highs) && consumed(lows) == len(lows) && consumed(closings) == len(closings) && closed(result0) && closed(result1) && closed(result2) && closed(result3) && closed(result4)
+//@ ensures[C04] forall kk :: 0 <= kk && kk < len(result0) ==> hor(result0, kk) <= max(hor(highs, kk + (i.IdlePeriod())), max(hor(lows, kk + (i.IdlePeriod())), hor(closings, kk + (i.IdlePeriod()))))
+//@ ensures[C04] forall kk :: 0 <= kk && kk < len(result1) ==> hor(result1, kk) <= max(hor(highs, kk + (i.IdlePeriod())), max(hor(lows, kk + (i.IdlePeriod())), hor(closings, kk + (i.IdlePeriod()))))
+//@ ensures[C04] forall kk :: 0 <= kk && kk < len(result2) ==> hor(result2, kk) <= max(hor(highs, kk + (i.IdlePeriod())), max(hor(lows, kk + (i.IdlePeriod())), hor(closings, kk + (i.IdlePeriod()))))
+//@ ensures[C04] forall kk :: 0 <= kk && kk < len(result3) ==> hor(result3, kk) <= max(hor(highs, kk + (i.IdlePeriod())), max(hor(lows, kk + (i.IdlePeriod())), hor(closings, kk + (i.IdlePeriod()))))
+//@ ensures[C04] forall kk :: 0 <= kk && kk < len(result4) ==> hor(result4, kk) <= max(hor(highs, kk + (i.IdlePeriod())), max(hor(lows, kk + (i.IdlePeriod())), hor(closings, kk + (i.IdlePeriod()))))
+
+//@ func Ppo.Compute
+//@ requires p.ShortEma.Period >= 1 && p.ShortEma.Period <= p.LongEma.Period && p.SignalEma.Period >= 1 && consumed(closings) == 0
+//@ ensures[C02] len(result0) == max(0, len(closings) - (p.IdlePeriod())) && len(result1) == max(0, len(closings) - (p.IdlePeriod())) && len(result2) == max(0, len(closings) - (p.IdlePeriod()))
+//@ ensures[C03] consumed(closings) == len(closings) && closed(result0) && closed(result1) && closed(result2)
+//@ ensures[C04] forall kk :: 0 <= kk && kk < len(result0) ==> hor(result0, kk) <= hor(closings, kk + (p.IdlePeriod()))
+//@ ensures[C04] forall kk :: 0 <= kk && kk < len(result1) ==> hor(result1, kk) <= hor(closings, kk + (p.IdlePeriod()))
+//@ ensures[C04] forall kk :: 0 <= kk && kk < len(result2) ==> hor(result2, kk) <= hor(closings, kk + (p.IdlePeriod()))
+
+//@ func Pvo.Compute
+//@ requires p.ShortEma.Period >= 1 && p.ShortEma.Period <= p.LongEma.Period && p.SignalEma.Period >= 1 && consumed(volumes) == 0
+//@ ensures[C02] len(result0) == max(0, len(volumes) - (p.IdlePeriod())) && len(result1) == max(0, len(volumes) - (p.IdlePeriod())) && len(result2) == max(0, len(volumes) - (p.IdlePeriod()))
+//@ ensures[C03] consumed(volumes) == len(volumes) && closed(result0) && closed(result1) && closed(result2)
+//@ ensures[C04] forall kk :: 0 <= kk && kk < len(result0) ==> hor(result0, kk) <= hor(volumes, kk + (p.IdlePeriod()))
+//@ ensures[C04] forall kk :: 0 <= kk && kk < len(result1) ==> hor(result1, kk) <= hor(volumes, kk + (p.IdlePeriod()))
+//@ ensures[C04] forall kk :: 0 <= kk && kk < len(result2) ==> hor(result2, kk) <= hor(volumes, kk + (p.IdlePeriod()))
+
+//@ func Qstick.Compute
+//@ requires q.Sma.Period >= 1 && consumed(openings) == 0 && consumed(closings) == 0 && len(openings) == len(closings)
+//@ ensures[C02] len(result) == max(0, len(openings) - (q.IdlePeriod()))
+//@ ensures[C03] consumed(openings) == len(openings) && consumed(closings) == len(closings) && closed(result)
+//@ ensures[C04] forall kk :: 0 <= kk && kk < len(result) ==> hor(result, kk) <= max(hor(openings, kk + (q.IdlePeriod())), hor(closings, kk + (q.IdlePeriod())))
+
+//@ func Rsi.Compute
+//@ requires r.Rma.Period >= 1 && consumed(closings) == 0
+//@ ensures[C02] len(result) == max(0, len(closings) - (r.IdlePeriod()))
+//@ ensures[C03] consumed(closings) == len(closings) && closed(result)
+//@ ensures[C04] forall kk :: 0 <= kk && kk < len(result) ==> hor(result, kk) <= hor(closings, kk + (r.IdlePeriod()))
+
+//@ func StochasticOscillator.Compute
+//@ requires s.Max.Period >= 1 && s.Min.Period == s.Max.Period && s.Sma.Period >= 1 && consumed(highs) == 0 && consumed(lows) == 0 && consumed(closings) == 0 && len(highs) == len(lows) && len(highs) == len(closings)
+//@ ensures[C02] len(result0) == max(0, len(highs) - (s.IdlePeriod())) && len(result1) == max(0, len(highs) - (s.IdlePeriod()))
+//@ ensures[C03] consumed(highs) == len(highs) && consumed(lows) == len(lows) && consumed(closings) == len(closings) && closed(result0) && closed(result1)
+//@ ensures[C04] forall kk :: 0 <= kk && kk < len(result0) ==> hor(result0, kk) <= max(hor(highs, kk + (s.IdlePeriod())), max(hor(lows, kk + (s.IdlePeriod())), hor(closings, kk + (s.IdlePeriod()))))
+//@ ensures[C04] forall kk :: 0 <= kk && kk < len(result1) ==> hor(result1, kk) <= max(hor(highs, kk + (s.IdlePeriod())), max(hor(lows, kk + (s.IdlePeriod())), hor(closings, kk + (s.IdlePeriod()))))
+
+//@ func StochasticRsi.Compute
+//@ requires s.Rsi.Rma.Period >= 1 && s.Min.Period >= 1 && s.Max.Period == s.Min.Period && consumed(closings) == 0
+//@ ensures[C02] len(result) == max(0, len(closings) - (s.IdlePeriod()))
+//@ ensures[C03] consumed(closings) == len(closings) && closed(result)
+//@ ensures[C04] forall kk :: 0 <= kk && kk < len(result) ==> hor(result, kk) <= hor(closings, kk + (s.IdlePeriod()))
+
+//@ func WilliamsR.Compute
+//@ requires w.Max.Period >= 1 && w.Min.Period == w.Max.Period && consumed(highs) == 0 && consumed(lows) == 0 && consumed(closings) == 0 && len(highs) == len(lows) && len(highs) == len(closings)
+//@ ensures[C02] len(result) == max(0, len(highs) - (w.IdlePeriod()))
+//@ ensures[C03] consumed(highs) == len(highs) && consumed(lows) == len(lows) && consumed(closings) == len(closings) && closed(result)
+//@ ensures[C04] forall kk :: 0 <= kk && kk < len(result) ==> hor(result, kk) <= max(hor(highs, kk + (w.IdlePeriod())), max(hor(lows, kk + (w.IdlePeriod())), hor(closings, kk + (w.IdlePeriod()))))
